@@ -330,7 +330,7 @@ func explore(ld *Loader, cfg RunConfig) *HarnessResult {
 			if len(hr.Samples) < 8 && res.Model != nil && (res.Outcome == "done") {
 				hr.Samples = append(hr.Samples, PathSample{Outcome: res.Outcome, Vars: filterModel(res.Model, res.Choices), Observed: res.Observed, Trace: res.Decisions})
 			}
-			if res.Outcome == "done" && !res.Tainted && res.Model != nil && len(hr.PassVectors) < 64 && (hr.Paths%7 == 1 || hr.Paths < 8) {
+			if res.Outcome == "done" && !res.Tainted && res.Model != nil && len(hr.PassVectors) < 64 && (hr.Paths%7 == 1 || hr.Paths < 24) {
 				hr.PassVectors = append(hr.PassVectors, PathSample{Outcome: res.Outcome, Vars: filterModel(res.Model, res.Choices), Observed: res.Observed, Trace: res.Decisions})
 			}
 			stack = append(stack, res.NewPrefixes...)
